@@ -1,12 +1,11 @@
-//! C11: harness not built yet.
+//! C11: see admin_common.rs (shared state-level harness of C07 / C08 / C11).
 use crate::Args;
+use crate::c08::admin_gen;
 
-pub fn gen(_a: &Args) -> String {
-    eprintln!("C11: harness not built yet");
-    std::process::exit(2);
+pub fn gen(a: &Args) -> String {
+    admin_gen::gen("C11", a)
 }
 
-pub fn replay(_a: &Args) -> String {
-    eprintln!("C11: harness not built yet");
-    std::process::exit(2);
+pub fn replay(a: &Args) -> String {
+    admin_gen::replay(a)
 }
